@@ -407,6 +407,10 @@ class ExprMixin(object):
                     return self.rec_has(st, box, x.py)
                 raise Unsupported('`in` record with a symbolic key')
             if box.kind == 'list':
+                hook = self.spec.hints.get('contains')
+                r = hook(self, st.heap[(box.id, 'val')], x, st) if hook is not None else None
+                if r is not None:                 # a sidecar model of the container (e.g. a map keyed by symbolic integers)
+                    return r
                 return contains(st.heap[(box.id, 'val')], x)
         return contains(box, x)
 
